@@ -480,9 +480,11 @@ def enum_dec_cases(rng, full=False):
 
 
 def gen_inner_case(rng):
-    """KNOWN FINDING decimal-table-inner-entry: a table with an INNER entry (three entries, voltages >= 1 apart around the
-    entry) that starts at a non-zero decimal offset (behind a ramp in a sequence / in the second pass of a repetition / of a
-    loop); the grid has the inner entry times.  The flag `dec_inner` only classifies failures of this family."""
+    """a table with an INNER entry (three entries, voltages >= 1 apart around the entry) that starts at a non-zero decimal
+    offset (behind a ramp in a sequence / in the second pass of a repetition / of a loop); the grid has the inner entry times.
+    Former known finding decimal-table-inner-entry (repaired in /repo by e2c868b): since round 5 the family is judged like
+    every other decimal case (flag `dec_inner` = histogram key only) and also wraps the table into the other leaf waveform
+    classes (multi-channel, arithmetic, time reversal)."""
     den = rng.choice([10, 10, 5, 20, 100])
     st = D(rng, den, forms=['float', 'dec_str', 'time'])
     st.ks = [1, 2, 3, 7]
@@ -493,8 +495,21 @@ def gen_inner_case(rng):
     ch = rng.choice(['A', 0])
     tab = {'k': 'table', 'chs': [[ch, [[C(0), C(v0), 'hold'], [st.time_expr(F(j, den), 'table'), C(v1), rng.choice(['hold', 'linear', 'jump'])],
                                        [st.time_expr(F(k, den), 'table'), C(v2), rng.choice(['linear', 'hold', 'jump'])]]]]}
-    shape = rng.choice(['seq', 'seq', 'rep', 'for', 'par'])
-    if shape == 'seq':
+    shape = rng.choice(['seq', 'seq', 'rep', 'for', 'par', 'multi', 'aarith', 'rev-seq', 'rep-rev'])
+    dk = st.time_expr(F(k, den), 'table')
+    other = 'B' if ch == 'A' else 'A'
+    if shape in ('multi', 'aarith'):
+        tab['chs'][0][1][2][0] = dk
+        if shape == 'multi':
+            leaf_ = {'k': 'multi', 'subs': [tab, {'k': 'table', 'chs': [[other, [[C(0), C(1), 'hold'], [dk, C(-1), 'linear']]]]}]}
+        else:
+            leaf_ = {'k': 'aarith', 'l': tab, 'op': rng.choice('+-'), 'r': {'k': 'const', 'd': dk, 'amps': [[ch, C(F(1, 2))]]}}
+        pt = {'k': 'rep', 'n': C(rng.choice([2, 3, 4])), 'body': leaf_}
+    elif shape == 'rev-seq':
+        pt = {'k': 'rev', 'body': {'k': 'seq', 'subs': [tab, ramp_table(st, [st.time_expr(F(rng.choice([1, 2, 3, 7, 9]), den), 'table')], [ch])]}}
+    elif shape == 'rep-rev':
+        pt = {'k': 'rep', 'n': C(rng.choice([2, 3, 4])), 'body': {'k': 'rev', 'body': tab}}
+    elif shape == 'seq':
         pt = {'k': 'seq', 'subs': [ramp_table(st, [st.time_expr(F(rng.choice([1, 2, 3, 7, 9]), den), 'table')], [ch]), tab]}
     elif shape == 'rep':
         pt = {'k': 'rep', 'n': C(rng.choice([2, 3, 4])), 'body': tab}
